@@ -1,5 +1,5 @@
 import sys, json, time, collections
-sys.path.insert(0,'/repo'); sys.path.insert(0,'/verif')
+import os; sys.path.insert(0, os.environ.get('RSIM_REPO','/repo')); sys.path.insert(0,'/verif')
 import casadi, rockit
 from rsim import runner, c20
 n0,n1=int(sys.argv[1]),int(sys.argv[2])
